@@ -126,8 +126,6 @@ def concretize_pref(cz, lz):
             val = cz.scalar(SV(var, "real" if var.sort() == z3.RealSort() else "int"))
             if fn is spec.ev:
                 cz.env_sym[name] = val
-            elif fn is spec.evi:
-                cz.env_symi[name] = val
         return sym
     if lz.cands:
         lz.cands = lz.cands[:1]
